@@ -38,7 +38,7 @@ Qed.
 
 Lemma WF_astep st a o : WF a -> WF (fst (astep st a o)).
 Proof.
-  intro Hwf. destruct o as [kt v|k|k|kt|q|v|]; simpl.
+  intro Hwf. destruct o as [kt v|k|k|kt|q|v| |kt]; simpl.
   - apply WF_aspec_set. exact Hwf.
   - apply WF_aspec_del. exact Hwf.
   - destruct st; [apply WF_aspec_del|]; exact Hwf.
@@ -46,6 +46,7 @@ Proof.
   - exact Hwf.
   - destruct st; [apply (WF_same a); [reflexivity|reflexivity|exact Hwf]|exact Hwf].
   - destruct st; [|exact Hwf]. destruct (adefault a); simpl; [apply (WF_same a); [reflexivity|reflexivity|exact Hwf]|exact Hwf].
+  - exact Hwf.
 Qed.
 
 Lemma WF_after st ops : WF (astate_after st ops).
